@@ -206,14 +206,16 @@ func cmdProducer(args []tok) string {
 		runErr = fmt.Errorf("HANG")
 	}
 	// let the sink drain what is in flight
-	prev := -1
-	for i := 0; i < 50; i++ {
+	prev, same := -1, 0
+	for i := 0; i < 150 && same < 8; i++ {
 		time.Sleep(20 * time.Millisecond)
 		mu.Lock()
 		n := len(lines)
 		mu.Unlock()
-		if n == prev && i > 5 {
-			break
+		if n == prev {
+			same++
+		} else {
+			same = 0
 		}
 		prev = n
 	}
